@@ -435,6 +435,11 @@ var craftKinds = []craftKind{
 			return r0 >= int64(p.Gamma2-p.Beta) && z < int64(p.Gamma1-p.Beta) && ct0 < int64(p.Gamma2) && w <= p.Omega
 		}
 	}, 0},
+	{"r0norm>=gamma2-beta/8", func(p *mldsaref.Params) func(int64, int64, int64, int) bool {
+		return func(z, r0, ct0 int64, w int) bool {
+			return r0 >= int64(p.Gamma2-p.Beta/8) && z < int64(p.Gamma1-p.Beta) && ct0 < int64(p.Gamma2) && w <= p.Omega
+		}
+	}, 0},
 }
 
 // craftCallIter bounds one SignMuCustom call (the 16-bit counter kappa = iteration * l must not wrap),
@@ -469,7 +474,7 @@ func TestBoundarySignatures(t *testing.T) {
 				sig = s
 			}
 		}
-		evid.Add("craft_loop_iterations_max", int64(calls*craftCallIter))
+		evid.Add("craft_signing_loops", int64(calls))
 		key := ps.name + "/" + ck.name
 		if sig == nil {
 			evid.Add("crafted_none/"+key, 1)
